@@ -291,8 +291,8 @@ def daysFromCivil (y m d : Nat) : Int :=
 def civilToEpoch (c : X509.Civil) : Int :=
   daysFromCivil c.y c.m c.d * 86400 + (c.h : Int) * 3600 + (c.mi : Int) * 60 + c.s
 
-/-- `Validity::take_from` -/
-def takeValidity (b : Bytes) : Option (X509.Validity × Bytes) :=
+/-- `Validity::take_from`: the two calendar times as written, and what follows -/
+def takeValidityCivil (b : Bytes) : Option (X509.Civil × X509.Civil × Bytes) :=
   match takeCons tagSeq b with
   | none => none
   | some (c, rest) =>
@@ -301,7 +301,11 @@ def takeValidity (b : Bytes) : Option (X509.Validity × Bytes) :=
     | some (t1, r1) =>
       match Manifest.takeTime r1 with
       | none => none
-      | some (t2, r2) => if r2 = [] then some (⟨civilToEpoch t1, civilToEpoch t2⟩, rest) else none
+      | some (t2, r2) => if r2 = [] then some (t1, t2, rest) else none
+
+/-- `Validity::take_from` as instants -/
+def takeValidity (b : Bytes) : Option (X509.Validity × Bytes) :=
+  (takeValidityCivil b).map fun (t1, t2, rest) => (⟨civilToEpoch t1, civilToEpoch t2⟩, rest)
 
 inductive KeyAlg | rsa | ecP256
 deriving DecidableEq, Repr
@@ -398,6 +402,8 @@ structure Exts where
   keyUsage : Option KeyUsage := none
   /-- `Some(has_bgpsec_router)` -/
   eku : Option Bool := none
+  /-- the captured content of the ExtKeyUsageSyntax SEQUENCE -/
+  ekuContent : Bytes := []
   crlUri : Option Bytes := none
   caIssuer : Option Bytes := none
   sia : Option Sia := none
@@ -488,7 +494,7 @@ def xExtKeyUsage (e : Exts) (critical : Bool) (v : Bytes) : Option Exts :=
     | some (kc, _) =>
       if kc = [] then none
       else match foldPrim tagOid (fun s o => if oidOk o then some (s || o == oidKpBgpsecRouter) else none) kc.length kc false with
-        | some has => some { e with eku := some has }
+        | some has => some { e with eku := some has, ekuContent := kc }
         | none => none
 
 /-- `take_crl_distribution_points` -/
@@ -611,6 +617,9 @@ structure Decoded where
   issuer : Bytes
   subject : Bytes
   validity : X509.Validity
+  /-- the two times of the validity as calendar values (what `validity` was computed from) -/
+  notBefore : X509.Civil
+  notAfter : X509.Civil
   keyAlg : KeyAlg
   keyUnused : Nat
   keyBits : Bytes
@@ -619,6 +628,7 @@ structure Decoded where
   aki : Option Bytes
   keyUsage : KeyUsage
   eku : Option Bool
+  ekuContent : Bytes
   crlUri : Option Bytes
   caIssuer : Option Bytes
   sia : Sia
@@ -657,9 +667,10 @@ def decodeTbs (raw : Bytes) (outerParam : Bool) (signature : Bytes) : Option Dec
               match takeName r2 with
               | none => none
               | some (issuer, r3) =>
-                match takeValidity r3 with
+                match takeValidityCivil r3 with
                 | none => none
-                | some (validity, r4) =>
+                | some (notBefore, notAfter, r4) =>
+                  let validity : X509.Validity := ⟨civilToEpoch notBefore, civilToEpoch notAfter⟩
                   match takeName r4 with
                   | none => none
                   | some (subject, r5) =>
@@ -684,8 +695,10 @@ def decodeTbs (raw : Bytes) (outerParam : Bool) (signature : Bytes) : Option Dec
                               | some ski, some ku, some trim =>
                                 let (v4, v6) := e.ip.getD (none, none)
                                 some {
-                                  serial, innerParam, outerParam, issuer, subject, validity, keyAlg, keyUnused, keyBits,
+                                  serial, innerParam, outerParam, issuer, subject, validity, notBefore, notAfter,
+                                  keyAlg, keyUnused, keyBits,
                                   basicCa := e.basicCa, ski, aki := e.aki, keyUsage := ku, eku := e.eku,
+                                  ekuContent := e.ekuContent,
                                   crlUri := e.crlUri, caIssuer := e.caIssuer, sia := e.sia.getD {}, trim,
                                   v4 := v4.getD .missing, v6 := v6.getD .missing, asn := e.asn.getD .missing,
                                   tbs := raw, signature }
